@@ -23,7 +23,7 @@ def regular(M, guards):
     return assign_ites(M, guards) if guards else M
 
 
-def frame_checks(w, rep, site, Rd, xC, W, thrust=None):
+def frame_checks(w, rep, site, Rd, xC, W, thrust=None, spec=None):
     """Orthonormal right-handed frame [xB|yB|zB]; yB perpendicular to the heading vector; thrust = |v| with zB = v/|v|."""
     if not (isinstance(Rd, MatVal) and Rd.shape == (3, 3)):
         rep.fail("C14.frame", "%s attitude matrix is 3x3" % site, "attitude matrix has shape %s" % (getattr(Rd, "shape", None),), where=W)
@@ -56,6 +56,29 @@ def frame_checks(w, rep, site, Rd, xC, W, thrust=None):
             rep.check("C14.frame", "%s: thrust * zB is the (un-normalised) demanded force" % site, sqrt_free, "returned thrust times body z still contains a norm: thrust is not |v| for zB = v/|v|", where=W)
             vv = MatVal(3, 1, [[p] for p in vc])
             verdict(rep, "C14.frame", "%s: returned thrust = |demanded force|" % site, nT, cm.scalar(cm.un("sqrt", cm.sumsqr(vv).s())), (), W, "returned thrust is not the norm of the demanded force")
+    # ---- the documented fallbacks: each degenerate-norm guard taken alone (the others regular)
+    tg = [c for c in g if g[c] is True]
+    for k_, c in enumerate(tg):
+        sel = dict(g)
+        sel[c] = False
+        Rdeg = regular(Rd, sel)
+        if spec:
+            # the frame is a function of the demanded force and the heading only: specialise the inputs so that the force is
+            # m a_t + trim zW with a free feed-forward a_t (zero feedback error) - every force direction is still reached
+            from .c16 import subs_syms
+            Rdeg = subs_syms(Rdeg, spec)
+        what = "|demanded force| (near-zero thrust)" if k_ == 0 and len(tg) > 1 else "|zB x heading| (thrust parallel to the heading)" if len(tg) > 1 else "norm"
+        inst = "%s: fallback %d of %d (guard on %s) still gives an orthonormal frame" % (site, k_ + 1, len(tg), what)
+        with with_maxdeg(30):
+            v, d = decide_mat(cm.matmul(cm.transpose(Rdeg), Rdeg), eye(3))
+        if v == EQUAL:
+            rep.ok("C14.degenerate", inst)
+        elif v == DIFFERENT:
+            # the fallback region (norm below the tolerance) has non-empty interior and the frame entries are analytic
+            # there: an identity that fails as an identity fails at points of the region
+            rep.fail("C14.degenerate", inst, "on the fallback branch R^T R is not the identity: %s" % d, where=W, fact={"guard": short(c, 80)})
+        else:
+            rep.incomplete("C14.degenerate", inst, "cannot decide: %s" % d, where=W)
     return R
 
 
@@ -100,7 +123,12 @@ def check_position_controllers(w, rep):
             verdict(rep, "C14.flow", "%s: qr_wb = SO3Quat.from_Matrix([xB|yB|zB])" % key, outs["qr_wb"], qexp, (), W, "returned quaternion is not the quaternion of the constructed frame")
         yaw = heading_from_quat(w, ins[heading_in])
         xC = cm.vertcat(cm.unop("cos")(yaw), cm.unop("sin")(yaw), 0)
-        frame_checks(w, rep, key, Rd, xC, W, thrust=outs["nT"])
+        spec = {}
+        if "zeta" in ins:
+            spec.update({a: Poly() for a in sym_atoms_of(ins["zeta"])})
+        if all(k in ins for k in ("p_w", "pt_w", "v_w", "vt_w")):
+            spec.update({a: Poly.atom(b) for a, b in zip(sym_atoms_of(ins["p_w"]) + sym_atoms_of(ins["v_w"]), sym_atoms_of(ins["pt_w"]) + sym_atoms_of(ins["vt_w"]))})
+        frame_checks(w, rep, key, Rd, xC, W, thrust=outs["nT"], spec=spec)
 
 
 def check_flatness(w, rep):
@@ -216,6 +244,7 @@ def run(w, rep, tier):
     rep.rule("C14.API", "the set-point generators resolve with the documented signatures")
     rep.rule("C14.frame", "on the regular branch: R^T R = I, xB = yB x zB, yB = (zB x xC)/|zB x xC| perpendicular to the heading, thrust = |v| with zB = v/|v|")
     rep.rule("C14.force", "the demanded force whose direction is body z is the norm-limited feedback term plus (thrust_trim + ki_z z_i) along world z (shared with C15.clamp)")
+    rep.rule("C14.degenerate", "each degenerate-norm fallback (near-zero thrust, thrust parallel to the heading), taken alone, still yields R^T R = I")
     rep.rule("C14.flow", "returned attitude is SO3Quat.from_Matrix of the constructed frame; v_b = C_be^T v_e")
     rep.rule("C14.euler-eq", "M_b = J omega_dot + omega x (J omega) with the very rates that are returned")
     rep.rule("C14.rates", "d zB/dt along the trajectory (a' = j) equals q xB - p yB")
@@ -232,6 +261,7 @@ def run(w, rep, tier):
     from .c07 import check_from_matrix
     check_from_matrix(w, rep, R="C14.flow", RV="C14.flow", RS="C14.flow")
     rep.floor("C14.frame", 14)
+    rep.floor("C14.degenerate", 6)
     rep.floor("C14.SIB", 6)
-    rep.undecided_clause("the degenerate branches (|T| < tol, thrust parallel to the heading): the fallbacks are not orthonormal in general (yB := xW is not perpendicular to zB)")
+    rep.undecided_clause("rates, moment and thrust magnitude on the degenerate branches (only orthonormality of the fallback frames is decided, C14.degenerate)")
     rep.undecided_clause("yaw rate r and the angular acceleration of the flatness maps (Euler-rate singularities)")
